@@ -278,7 +278,48 @@ def build_repo(dst, config="default", shares=None, san=False, targets=("ascon_st
     if rc != 0:
         return False, out
     rc, out2 = sh(["ninja", "-C", dst, "-j%d" % NPROC] + list(targets), timeout=1800)
+    if rc == 0:
+        why = config_took_effect(dst, config.split("+")[0], shares)
+        if why:
+            return False, "the requested configuration did not take effect: " + why + "\n" + (out + out2)[-1500:]
     return rc == 0, out + out2
+
+
+# what a configuration must look like in the build tree: compiler defines, the object that provides ascon_permute
+CONFIG_FACTS = {
+    "default": ([], "ascon-asm-x86-64.S.o"), "volclean": ([], "ascon-asm-x86-64.S.o"),
+    "c64": (["-DASCON_FORCE_C64"], "ascon-c64.c.o"), "c32": (["-DASCON_FORCE_C32"], "ascon-c32.c.o"),
+    "directxor": (["-DASCON_FORCE_DIRECT_XOR"], "ascon-c64.c.o"), "generic": (["-DASCON_FORCE_GENERIC"], "ascon-c64.c.o"),
+    "checkar": (["-DASCON_FORCE_GENERIC", "-DASCON_CHECK_ACQUIRE_RELEASE"], "ascon-c64.c.o"),
+}
+
+
+def config_took_effect(dst, config, shares):
+    """read the configuration back from the build tree (a mistyped option in CMakeLists.txt would otherwise silently give the
+    default build under another name); '' when everything is as requested"""
+    defs, obj = CONFIG_FACTS[config]
+    try:
+        ninja = open(os.path.join(dst, "build.ninja")).read()
+    except OSError:
+        return "no build.ninja"
+    forced = set(re.findall(r"-DASCON_(?:FORCE_[A-Z0-9_]+|CHECK_ACQUIRE_RELEASE)", ninja))
+    if forced != set(defs):
+        return "compiler defines are %s, expected %s" % (sorted(forced) or "none", defs or "none")
+    lib = os.path.join(dst, "src", "libascon_static.a")
+    if os.path.exists(lib):
+        rc, out = sh(["nm", "-A", lib])
+        prov = [l.split(":")[1] for l in out.split("\n") if l.endswith(" T ascon_permute") and l.count(":") >= 2]
+        if prov != [obj]:
+            return "ascon_permute is provided by %s, expected %s" % (prov, obj)
+    want = shares or (4, 2, 4)
+    try:
+        cfg = open(os.path.join(dst, "config.h")).read()
+    except OSError:
+        return "no config.h"
+    got = tuple(int((re.search(r"#define ASCON_MASKED_%s_SHARES (\d+)" % n, cfg) or [0, "0"])[1]) for n in ("KEY", "DATA", "MAX"))
+    if got != tuple(want):
+        return "config.h has key/data/max shares %s, expected %s" % (got, tuple(want))
+    return ""
 
 
 HARNESS_SRCS = ["main.cpp", "h_aead.cpp"]
